@@ -31,8 +31,17 @@ def eval_call(ex, node, st, sink):
         if name in st.vars and hasattr(st.vars[name], "node"):
             return call_closure(ex, st.vars[name], node, st, sink)
         b = BUILTINS.get(name)
-        if b is not None:
+        if b is not None and name not in st.vars:
             return b(ex, node, st, sink)
+        if name in st.vars:
+            v = ex.read_var(st, name)
+            if isinstance(v.t, ty.RefT):
+                c = ex.reg.find_method(v.t.cls, "__call__")
+                if c is not None:
+                    out = []
+                    for s, vals in ex.ev_list(list(node.args), st, sink):
+                        out += ex.call_contract(c, [v] + vals, {}, s, sink, node)
+                    return out
         raise Unsupported("call of %s at line %d (no contract, not a modelled builtin)" % (name, node.lineno))
     if isinstance(f, ast.Attribute):
         out = []
